@@ -127,7 +127,7 @@ def forged_base(p, who, kind, eng, sym_header=True):
     else:
         if who in ('A2', 'B2'):
             # a DPD request of the successor's peer
-            world.ENV.now = peer.start_dpd_at + 1
+            world.ENV.now = peer.start_dpd_at + 3600
             PE = p.B if who == 'A2' else p.A
             d0 = PE.call(peer.check_dead_peer_detection_timer)
         else:
